@@ -105,7 +105,8 @@ def _flow(host, port, path, set_cookie=None):
     f = tflow.tflow(req=tutils.treq(host=host, port=port, path=path.encode(), headers=__import__("mitmproxy.http").http.Headers(), content=b""),
                     resp=set_cookie is not None)
     if set_cookie is not None:
-        f.response.headers["Set-Cookie"] = set_cookie
+        for line in ([set_cookie] if isinstance(set_cookie, str) else set_cookie):
+            f.response.headers.add("Set-Cookie", line)
     return f
 
 
@@ -223,8 +224,16 @@ def h_history(X, spec):
         host, port, dom, path, expiry, name = X.choose("set_cookie", menu)
         value = f"v{i}"
         line = f"{name}={value}" + (f"; Domain={dom}" if dom is not None else "") + (f"; Path={path}" if path is not None else "") + (f"; {expiry}" if expiry else "")
+        lines = [line]
+        if not first and spec.get("foreign_first") and X.boolean("foreign_cookie_first"):
+            # the same response carries, in an earlier Set-Cookie field, a cookie for a domain the host does not belong to:
+            # it must not be stored, and it must not change what happens to the other fields of the response
+            fdom = ".example.com" if host.endswith("evil.org") else ".evil.org"
+            ref.set_cookie(host, port, "x", f"f{i}", fdom, None, None)
+            lines.insert(0, f"x=f{i}; Domain={fdom}")
+            X.reach("two-set-cookie-fields")
         ref.set_cookie(host, port, name, value, dom, path, expiry)
-        sc.response(_flow(host, port, "/", line))
+        sc.response(_flow(host, port, "/", lines))
         X.reach("response")
         # stored => allowed
         for key, cs in sc.jar.items():
@@ -265,7 +274,7 @@ def obligations(tier):
     spec_q = dict(max_responses=2, set_hosts=[H_SUB, H_INNER], set_ports=[80, 8080], dom_attrs=DOM_ATTRS, expiry=EXPIRY[:2], first_plain=True,
                   names=["c"], req_hosts=REQ_HOSTS, req_ports=[80, 8080], req_paths=["/foo", "/foobar"])
     spec_t = dict(spec_q, set_hosts=[H_SAME, H_SUB, H_INNER], expiry=EXPIRY, req_paths=["/", "/foo", "/foobar", "/foo/bar"])
-    spec_store = dict(spec_t, do_request=False, names=["c"] if q else ["c", "d"], expiry=EXPIRY[:4] if q else EXPIRY)
+    spec_store = dict(spec_t, do_request=False, foreign_first=True, names=["c"] if q else ["c", "d"], expiry=EXPIRY[:4] if q else EXPIRY)
     spec_t3 = dict(max_responses=3, set_hosts=[H_SUB, H_INNER], set_ports=[80], dom_attrs=[None, ".example.com"], expiry=EXPIRY[:2], first_plain=False,
                    names=["c"], req_hosts=REQ_HOSTS, req_ports=[80, 8080], req_paths=["/", "/foo", "/foobar"])
     reach_h = ["response", "request", "attached", "attached-allowed", "foreign-rejected", "expiry-processed"]
@@ -288,8 +297,9 @@ def obligations(tier):
     obs.append(Symx("store-and-expire", lambda X: h_history(X, spec_store),
                     bounds="<= 2 Set-Cookie responses, no request; after each response every cookie in the real jar must be allowed by the reference jar "
                            "(hosts example.com / www.example.com / www.example.com.evil.org, second response port 80 / 8080, Domain none / example.com / .example.com / .evil.org, "
-                           "Path none / /foo, expiry none / Max-Age=0 / past Expires / Max-Age=-1" + ("" if q else " / Max-Age=3600, cookie names c / d") + ")",
-                    encoded=ENCODED, must_reach=["response", "foreign-rejected", "expiry-processed"], parallel_depth=2))
+                           "Path none / /foo, expiry none / Max-Age=0 / past Expires / Max-Age=-1" + ("" if q else " / Max-Age=3600, cookie names c / d") + "); the second response "
+                           "optionally carries a foreign-Domain cookie in an earlier Set-Cookie field",
+                    encoded=ENCODED, must_reach=["response", "foreign-rejected", "expiry-processed", "two-set-cookie-fields"], parallel_depth=2))
     if not q:
         obs.append(Symx("history-3", lambda X: h_history(X, spec_t3),
                         bounds="<= 3 Set-Cookie responses (hosts www.example.com / www.example.com.evil.org, port 80, Domain none / .example.com, Path none / /foo, "
